@@ -36,6 +36,7 @@ type Object struct {
 	Shared bool   // thread mode: reachable by more than one thread
 	Owner  int    // thread mode: allocating thread (-1 = setup)
 	Name   string // optional label
+	UF     string // non-empty: never-written byte array whose element i is the uninterpreted application UF(i)
 }
 
 type PathEl struct {
